@@ -173,9 +173,47 @@ def t3a_cipher_txt(T):
             "From Coq Require Import String List.\nImport ListNotations.\nOpen Scope string_scope.\n"
             "Definition txt_rows : list (list string) := [\n" + ";\n".join(rows) + "\n].\n")
 
+def t8_serialize(T, consts):
+    """the byte emitted by gen_tls_changecipherspec, and the constants used as type bytes / extension tags"""
+    U = T.Untranslatable
+    src = T.strip_comments(T.read("src/tls_serialize.rs"))
+    def byte_of(fname, pattern):
+        b = T.nows(T.fn_body(src, fname, "src/tls_serialize.rs"))
+        m = re.search(pattern, b)
+        if not m: raise U("%s: expected %s, found %r" % (fname, pattern, b[:120]))
+        return m
+    def const_or_lit(txt, where):
+        m = re.fullmatch(r"u(?:8|16)::from\((\w+)::(\w+)\)", txt)
+        if m:
+            if (m.group(1), m.group(2)) not in consts: raise U("%s: unknown constant %s" % (where, txt))
+            return consts[(m.group(1), m.group(2))]
+        return T.eval_int(txt, where)
+    b = T.nows(T.fn_body(src, "gen_tls_changecipherspec", "src/tls_serialize.rs"))
+    m = re.fullmatch(r"be_u8\((.+)\)", b)
+    if not m: raise U("gen_tls_changecipherspec body %r" % b)
+    ccs = const_or_lit(m.group(1), "gen_tls_changecipherspec")
+    out = ["(* GENERATED by tools/translate.py (T8) from src/tls_serialize.rs -- do not edit *)", "From Coq Require Import NArith.", "Open Scope N_scope.",
+           "Definition ser_ccs_byte : N := %d." % ccs]
+    for fname, nm in (("gen_tls_clienthello", "ser_ty_clienthello"), ("gen_tls_serverhello", "ser_ty_serverhello"),
+                      ("gen_tls_serverhellodraft18", "ser_ty_serverhello13"), ("gen_tls_clientkeyexchange_unknown", "ser_ty_cke_unknown"),
+                      ("gen_tls_clientkeyexchange_dh", "ser_ty_cke_dh"), ("gen_tls_clientkeyexchange_ecdh", "ser_ty_cke_ecdh"),
+                      ("gen_tls_hellorequest", "ser_ty_hellorequest"), ("gen_tls_finished", "ser_ty_finished")):
+        b = T.nows(T.fn_body(src, fname, "src/tls_serialize.rs"))
+        m = re.match(r"tuple\(\(be_u8\((u8::from\(TlsHandshakeType::\w+\)|[0-9a-fx_]+)\),", b)
+        if not m: raise U("%s: type byte not found: %r" % (fname, b[:80]))
+        out.append("Definition %s : N := %d." % (nm, const_or_lit(m.group(1), fname)))
+    for fname, nm in (("gen_tls_ext_sni", "ser_tag_sni"), ("gen_tls_ext_max_fragment_length", "ser_tag_mfl"),
+                      ("gen_tls_ext_elliptic_curves", "ser_tag_groups")):
+        b = T.nows(T.fn_body(src, fname, "src/tls_serialize.rs"))
+        m = re.match(r"tagged_extension\((u16::from\(TlsExtensionType::\w+\)|[0-9a-fx_]+),", b)
+        if not m: raise U("%s: tag not found: %r" % (fname, b[:80]))
+        out.append("Definition %s : N := %d." % (nm, const_or_lit(m.group(1), fname)))
+    return "\n".join(out) + "\n"
+
 def run(T, step, enums):
     step("T3a", ["CipherTxt.v"], lambda: {"CipherTxt.v": t3a_cipher_txt(T)})
     if enums is not None:
         consts = T.const_lookup(enums)
         step("T2", ["StateTable.v"], lambda: {"StateTable.v": t2_states(T, consts)})
         step("T6", ["KeyBits.v"], lambda: {"KeyBits.v": t6_key_bits(T, consts)})
+        step("T8", ["SerConsts.v"], lambda: {"SerConsts.v": t8_serialize(T, consts)})
